@@ -1578,6 +1578,10 @@ class ActiveSelectorBasic:
             _add_transition_sorted(results['transitions'], transition)
             if transition_compared_to_match == 0:
                 results['startTransitionFound'] = True
+                # Restore the original suffix of the start of the ZoneMatch
+                # (see ActiveSelectorInPlace.select_active_transitions()).
+                transition.originalTransitionTime = transition.transitionTime
+                transition.transitionTime = match.startDateTime
         else:  # transition_compared_to_match < 0:
             # If a Transition exists on the start bounary of the ZoneMatch,
             # then we don't need to search for the latest prior.
@@ -1615,7 +1619,13 @@ class ActiveSelectorInPlace:
         for transition in transitions:
             prior = self._process_transition(match, transition, prior)
 
-        if prior and prior.transitionTime < match.startDateTime:
+        # Shift the latest prior transition to the start of the ZoneMatch. This
+        # must also be done for a transition that lies exactly on the start of
+        # the match: its transitionTime has already been converted to 'w' by
+        # _fix_transition_times(), and the start of the match carries the
+        # original suffix ('s' or 'u') which the final conversion needs. This
+        # is what ExtendedZoneProcessor::selectActiveTransitions() does.
+        if prior:
             prior.originalTransitionTime = prior.transitionTime
             prior.transitionTime = match.startDateTime
 
